@@ -337,6 +337,39 @@ theorem compatible_history (row : Row) (hcompat : Compatible row = true) (vpn : 
     subst e
     simp only [reportedAll, List.map_cons, he, ih]
 
+theorem compiles_ethernet (e : Expr) : compiles e .ethernet = true := by
+  cases e <;> rfl
+
+theorem compiles_tcp (r : Range) (m : LinkMode) : compiles (tcpBPFFilter r) m = true := by
+  obtain ⟨subnet, ports⟩ := r
+  cases subnet <;> cases ports <;> cases m <;> rfl
+
+theorem compiles_icmp (r : Range) (m : LinkMode) : compiles (icmpBPFFilter r) m = true := by
+  obtain ⟨subnet, ports⟩ := r
+  cases subnet <;> cases m <;> rfl
+
+/-- libpcap accepts the filter of every compatible row on the link type the row opens (it refuses `arp` on raw IP) -/
+theorem compatible_compiles (row : Row) (hcompat : Compatible row = true) (vpn : Bool) (r : Range) :
+    compiles (filterOf row.bpf r) (linkOf row vpn) = true := by
+  obtain ⟨cmd, scanName, proc, bpf, pktFilter, pktFlags, engine, bpfVpn, procVpn⟩ := row
+  unfold Compatible at hcompat
+  simp only at hcompat ⊢
+  cases hk : kindOf cmd with
+  | tcp syn =>
+    simp only [hk, Bool.and_eq_true, beq_iff_eq] at hcompat
+    obtain ⟨⟨⟨⟨⟨-, rfl⟩, -⟩, -⟩, -⟩, -⟩ := hcompat
+    cases syn
+    · exact compiles_tcp r _
+    · cases hm : linkOf _ vpn <;> rfl
+  | icmp =>
+    simp only [hk, Bool.and_eq_true, beq_iff_eq] at hcompat
+    obtain ⟨⟨⟨-, rfl⟩, -⟩, -⟩ := hcompat
+    exact compiles_icmp r _
+  | arp =>
+    simp only [hk, Bool.and_eq_true, beq_iff_eq, Bool.not_eq_true'] at hcompat
+    obtain ⟨⟨-, rfl⟩, rfl⟩ := hcompat
+    exact compiles_ethernet _
+
 theorem rangeOK_chunk (r : Range) (hr : RangeOK r = true) (i n : Nat) :
     RangeOK { r with ports := (r.ports.drop i).take n } = true := by
   unfold RangeOK at hr ⊢
